@@ -318,6 +318,18 @@ func (ix *idxEngine) populateFillEvents(fn *ssa.Function, dec *types.Named, refl
 	order := rpoOrder(fn)
 	blocks := append([]*ssa.BasicBlock(nil), fn.Blocks...)
 	sort.SliceStable(blocks, func(i, j int) bool { return order[blocks[i]] < order[blocks[j]] })
+	// fills made through package reflect (by whatever helpers): evaluated abstractly over the whole function; they
+	// are merged with the direct ones by source position, which is execution order in this straight-line function
+	reflDone := false
+	if reflHelper == nil {
+		re := ix.newReflEval(dec)
+		evs, okR, whyR := re.eventsIn(fn, map[ssa.Value]rabs{ssa.Value(recv): {kind: "dec"}}, 0)
+		if !okR {
+			return nil, false, whyR
+		}
+		out = append(out, evs...)
+		reflDone = true
+	}
 	// a block may be skipped by Populate's early returns only (tests of the receiver or of its boolean fields);
 	// any other condition makes an event there conditional
 	neutralCond := func(cond ssa.Value) bool {
@@ -399,6 +411,7 @@ func (ix *idxEngine) populateFillEvents(fn *ssa.Function, dec *types.Named, refl
 				if !isFill {
 					continue
 				}
+				_ = reflDone
 				args := x.Common().Args
 				uncond, _ := guardsOf(b, "")
 				classifyVal := func(v ssa.Value) string {
@@ -459,5 +472,20 @@ func (ix *idxEngine) populateFillEvents(fn *ssa.Function, dec *types.Named, refl
 			}
 		}
 	}
+	if reflDone {
+		sort.SliceStable(out, func(i, j int) bool { return out[i].At < out[j].At })
+	}
 	return out, true, ""
+}
+
+func (ix *idxEngine) newReflEval(dec *types.Named) *reflEval {
+	re := &reflEval{ix: ix, decFields: map[string]bool{}}
+	if st, ok := dec.Underlying().(*types.Struct); ok {
+		for i := 0; i < st.NumFields(); i++ {
+			if isStringType(st.Field(i).Type()) {
+				re.decFields[st.Field(i).Name()] = true
+			}
+		}
+	}
+	return re
 }
